@@ -25,6 +25,22 @@ theorem LevelsOK.of_tableOK {L : DocLevels} {T : Parser.BpTable} (h : TableOK L 
 theorem erase_atLeast (L : DocLevels) (k : Nat) (s : S) : (atLeast L k s).erase = s.erase := by
   unfold atLeast; split <;> simp [erase]
 
+theorem canon_isEnd (L : DocLevels) (s : S) : (canon L s).isEnd = s.isEnd := by
+  cases s <;> simp [canon, isEnd]
+  all_goals (split <;> rfl)
+
+theorem canon_isAbsent (L : DocLevels) (s : S) : (canon L s).isAbsent = s.isAbsent := by
+  cases s <;> simp [canon, isAbsent]
+
+theorem isAbsent_absent : S.absent.isAbsent = true := rfl
+theorem isAbsent_paren (e : S) : (S.paren e).isAbsent = false := rfl
+
+theorem atLeast_isAbsent (L : DocLevels) (k : Nat) (s : S) (h : s.isAbsent = false) :
+    (atLeast L k s).isAbsent = false := by
+  unfold atLeast; split
+  · exact isAbsent_paren s
+  · exact h
+
 theorem canon_erase_both (L : DocLevels) (s : S) :
     (canon L s).erase = s.erase ∧ (canon L s).eraseArgs = s.eraseArgs
       ∧ (canon L s).eraseItems = s.eraseItems ∧ (canon L s).eraseEntries = s.eraseEntries := by
@@ -35,6 +51,19 @@ theorem canon_erase_both (L : DocLevels) (s : S) :
   | index e i ihe ihi =>
     simp only [canon]
     split <;> simp [erase, eraseArgs, eraseItems, eraseEntries, ihe.1, ihi.1]
+  | comp e key value target cond ihe iht ihc =>
+    refine ⟨?_, by simp [canon, eraseArgs], by simp [canon, eraseItems], by simp [canon, eraseEntries]⟩
+    cases hca : cond.isAbsent
+    · have := atLeast_isAbsent L 1 (canon L cond) (by rw [canon_isAbsent]; exact hca)
+      simp [canon, erase, hca, this, erase_atLeast, ihe.1, iht.1, ihc.1]
+    · simp [canon, erase, hca, isAbsent_absent, erase_atLeast, ihe.1, iht.1]
+  | slice e a b c ihe iha ihb ihc =>
+    refine ⟨?_, by simp [canon, eraseArgs], by simp [canon, eraseItems], by simp [canon, eraseEntries]⟩
+    simp only [canon]
+    split <;> simp [erase, canon_isAbsent, ihe.1, iha.1, ihb.1, ihc.1]
+  | subSlice e a b c o ihe iha ihb ihc =>
+    refine ⟨?_, by simp [canon, eraseArgs], by simp [canon, eraseItems], by simp [canon, eraseEntries]⟩
+    simp [canon, erase, canon_isAbsent, ihe.1, iha.1, ihb.1, ihc.1]
   | _ => simp_all [canon, erase, eraseArgs, eraseItems, eraseEntries, erase_atLeast]
 
 theorem canon_erase (L : DocLevels) (s : S) : (canon L s).erase = s.erase :=
@@ -45,6 +74,16 @@ theorem canon_argNames (L : DocLevels) (s : S) : (canon L s).argNames = s.argNam
   | unary u e ih => simp only [canon]; split <;> simp [argNames]
   | index e i ihe ihi => simp only [canon]; split <;> simp [argNames]
   | _ => simp_all [canon, argNames]
+
+/-- an optional part stays well parenthesised -/
+theorem canon_part (L : DocLevels) (p : S) (ih : p.Valid → (canon L p).DocWP L)
+    (h : if p.isAbsent then True else p.Valid) :
+    if (canon L p).isAbsent then True else (canon L p).DocWP L := by
+  rw [canon_isAbsent]
+  cases hx : p.isAbsent
+  · simp only [hx, Bool.false_eq_true, if_false] at h ⊢
+    exact ih h
+  · simp
 
 theorem canon_isChain (L : DocLevels) (s : S) (h : s.isChain = true) :
     (canon L s).isChain = true ∧ (canon L s).chainRoot = s.chainRoot := by
@@ -194,29 +233,70 @@ theorem canon_docwp_both (L : DocLevels) (hL : LevelsOK L) (s : S) :
       fun h => by simp [ValidEntries] at h⟩
     intro hv
     simp only [canon]
-    exact ih.2.2.2 hv
+    exact ⟨ih.2.2.2 hv.1, by rw [canon_isEnd]; exact hv.2⟩
+  | slice e a b c ihe iha ihb ihc =>
+    refine ⟨?_, fun h => by simp [ValidArgs] at h, fun h => by simp [ValidItems] at h,
+      fun h => by simp [ValidEntries] at h⟩
+    intro hv
+    obtain ⟨hve, ha, hb, hc⟩ := hv
+    simp only [canon]
+    split
+    · rename_i hp
+      exact ⟨ihe.1 hve, hp, canon_part L a iha.1 ha, canon_part L b ihb.1 hb, canon_part L c ihc.1 hc⟩
+    · exact ⟨ihe.1 hve, rfl, canon_part L a iha.1 ha, canon_part L b ihb.1 hb, canon_part L c ihc.1 hc⟩
+  | subSlice e a b c o ihe iha ihb ihc =>
+    refine ⟨?_, fun h => by simp [ValidArgs] at h, fun h => by simp [ValidItems] at h,
+      fun h => by simp [ValidEntries] at h⟩
+    intro hv
+    obtain ⟨hce, hve, ha, hb, hc⟩ := hv
+    have := canon_isChain L e hce
+    simp only [canon]
+    exact ⟨this.1, ihe.1 hve, canon_part L a iha.1 ha, canon_part L b ihb.1 hb, canon_part L c ihc.1 hc⟩
+  | absent => exact ⟨fun h => by simp [Valid] at h, fun h => by simp [ValidArgs] at h,
+      fun h => by simp [ValidItems] at h, fun h => by simp [ValidEntries] at h⟩
+  | argEnd => exact ⟨fun h => by simp [Valid] at h, fun _ => trivial,
+      fun h => by simp [ValidItems] at h, fun h => by simp [ValidEntries] at h⟩
+  | itemEnd => exact ⟨fun h => by simp [Valid] at h, fun h => by simp [ValidArgs] at h,
+      fun _ => trivial, fun h => by simp [ValidEntries] at h⟩
+  | entryEnd => exact ⟨fun h => by simp [Valid] at h, fun h => by simp [ValidArgs] at h,
+      fun h => by simp [ValidItems] at h, fun _ => trivial⟩
+  | comp e key value target cond ihe iht ihc =>
+    refine ⟨?_, fun h => by simp [ValidArgs] at h, fun h => by simp [ValidItems] at h,
+      fun h => by simp [ValidEntries] at h⟩
+    intro hv
+    obtain ⟨hve, hval, hkey, hvt, hvc⟩ := hv
+    have hp := hL.pos
+    simp only [canon]
+    refine ⟨ihe.1 hve, hval, hkey, docwp_atLeast L _ _ (iht.1 hvt), lvl_atLeast L _ _ (by omega), ?_⟩
+    cases hca : cond.isAbsent
+    · have := atLeast_isAbsent L 1 (canon L cond) (by rw [canon_isAbsent]; exact hca)
+      simp only [hca, Bool.false_eq_true, if_false, this] at hvc ⊢
+      exact ⟨docwp_atLeast L _ _ (ihc.1 hvc), lvl_atLeast L _ _ (by omega)⟩
+    · simp [isAbsent_absent]
   | arr items ih =>
     refine ⟨?_, fun h => by simp [ValidArgs] at h, fun h => by simp [ValidItems] at h, fun h => by simp [ValidEntries] at h⟩
     intro hv
     simp only [canon]
-    exact ih.2.2.1 hv
+    exact ⟨ih.2.2.1 hv.1, by rw [canon_isEnd]; exact hv.2⟩
   | call n args ih =>
     refine ⟨?_, fun h => by simp [ValidArgs] at h, fun h => by simp [ValidItems] at h, fun h => by simp [ValidEntries] at h⟩
     intro hv
     simp only [canon]
-    exact ⟨hv.1, ih.2.1 hv.2⟩
+    exact ⟨hv.1, ih.2.1 hv.2.1, by rw [canon_isEnd]; exact hv.2.2⟩
   | filterA e n args ihe iha =>
     refine ⟨?_, fun h => by simp [ValidArgs] at h, fun h => by simp [ValidItems] at h, fun h => by simp [ValidEntries] at h⟩
     intro hv
     have hb := hL.bin .Pipe
     simp only [canon]
-    exact ⟨docwp_atLeast L _ _ (ihe.1 hv.1), lvl_atLeast L _ _ (by omega), iha.2.1 hv.2⟩
+    exact ⟨docwp_atLeast L _ _ (ihe.1 hv.1), lvl_atLeast L _ _ (by omega), iha.2.1 hv.2.1,
+      by rw [canon_isEnd]; exact hv.2.2⟩
   | testA e n g args ihe iha =>
     refine ⟨?_, fun h => by simp [ValidArgs] at h, fun h => by simp [ValidItems] at h, fun h => by simp [ValidEntries] at h⟩
     intro hv
     have hb := hL.bin .Is
     simp only [canon]
-    exact ⟨docwp_atLeast L _ _ (ihe.1 hv.1), lvl_atLeast L _ _ (by omega), hv.2.1, iha.2.1 hv.2.2⟩
+    exact ⟨docwp_atLeast L _ _ (ihe.1 hv.1), lvl_atLeast L _ _ (by omega), hv.2.1,
+      iha.2.1 hv.2.2.1, by rw [canon_isEnd]; exact hv.2.2.2⟩
 
 theorem canon_docwp (L : DocLevels) (hL : LevelsOK L) (s : S) : s.Valid → (canon L s).DocWP L :=
   (canon_docwp_both L hL s).1
